@@ -26,10 +26,15 @@ Record req := mkReq {
   remote_addr : ipaddr;        (* environ['REMOTE_ADDR'] *)
   cur_domain : text;           (* request.domain *)
   now : Z;                     (* floor of time_mod.time() / helper.now *)
-  half : bool }.               (* the clock reads now + 0.5 (fractional clocks at half-second resolution) *)
+  half : bool;                 (* the clock reads now + 0.5 (fractional clocks at half-second resolution) *)
+  tick : bool }.               (* a running clock: after its first reading in an operation it shows one second more *)
 
 (* twice the clock value: comparisons against integer timestamps are made on doubled values *)
 Definition now2 (r : req) : Z := (2 * now r + (if half r then 1 else 0))%Z.
+
+(* the request as seen after one reading of the clock *)
+Definition later (r : req) : req :=
+  if tick r then mkReq (cookie r) (remote_addr r) (cur_domain r) (now r + 1)%Z (half r) false else r.
 
 (* arguments handed to CookieProfile.get_headers (one header per domain; there is one domain) *)
 Record ck := mkCk {
